@@ -77,6 +77,7 @@ def check(chk):
                                                 "_setup_device_control_events")}
     chk.analysed(*m.values())
     _handler_keys(chk, repo)
+    _own_scope(chk, repo)
 
     # ------------------------------------------------------------ TRACE-2
     CHAIN = [
@@ -602,6 +603,38 @@ def _result_container(fn, call):
     return None
 
 
+def _own_scope(chk, repo):
+    """SCOPE-7: what belongs to a mode is filed where the mode's stop finds it, and a clean-up touches only what is its own.
+    (a) every delay armed inside Mode goes to the mode's own DelayManager (`self.delay`, cleared by Mode.stop) -- one armed on the
+        machine-wide manager survives the mode and fires into a stopped mode;
+    (b) a config player's clear_context removes event handlers by the keys recorded for that context, never by method or by event:
+        those remove the handlers of every other context (and of the machine-wide config) too."""
+    mode = repo.cls(MD, "Mode")
+    n = 0
+    for m in mode.methods.values():
+        for c in m.calls():
+            if call_attr(c) in ("add", "reset", "add_if_doesnt_exist") and isinstance(c.func, ast.Attribute) and src(c.func.value).endswith("delay") and \
+                    (kwarg(c, "ms") is not None or kwarg(c, "callback") is not None or len(c.args) >= 2):
+                n += 1
+                chk.analysed(m)
+                chk.ob("SCOPE-7", "a delay armed inside Mode.%s is the mode's own (self.delay), which Mode.stop clears" % m.name, src(c.func.value) == "self.delay", m.where(c),
+                       detail="armed on %s" % src(c.func.value), construct=m.ident, text="mode delay armed on " + src(c.func.value))
+    chk.ob("SCOPE-7", "delays armed inside Mode examined", n >= 1, mode.where(), detail=str(n), nontrivial=False)
+    k = 0
+    for cls in repo.all_classes("mpf/"):
+        cc = cls.methods.get("clear_context")
+        if cc is None:
+            continue
+        k += 1
+        for c in cc.calls():
+            if call_attr(c) in ("remove_handler", "remove_handler_by_event", "remove_all_handlers_for_event") and "events" in src(c.func.value):
+                chk.analysed(cc)
+                chk.ob("SCOPE-7", "%s.clear_context removes handlers only by the keys recorded for its context" % cls.name, False, cc.where(c),
+                       detail="`%s` removes the handlers of other contexts as well" % short(c, 70), construct=cc.ident,
+                       text="clear_context of %s removes handlers by %s" % (cls.name, call_attr(c)))
+    chk.ob("SCOPE-7", "clear_context implementations examined (%d): none removes handlers by method or by event" % k, k >= 10, "mpf/config_players:1", nontrivial=False)
+
+
 def _handler_keys(chk, repo):
     """KEY-7: the key add_handler hands back finds the registration again.  The handler is filed under the *parsed* event name (the
     `{condition}` / `.priority` suffix stripped); the returned EventHandlerKey must carry that same name and the very key stored in the
@@ -695,6 +728,8 @@ def battery():
         M("stop methods run only for the first", MD, "        for item in self.stop_methods:\n            item[0](item[1])", "        for item in self.stop_methods:\n            item[0](item[1])\n            break", "DOM-15"),
         M("returned handler key carries the raw event string", "mpf/core/events.py", "        event, condition, additional_priority = self.get_event_and_condition_from_string(event)\n        priority += additional_priority\n\n        key = uuid.uuid4()", "        raw_event = event\n        event, condition, additional_priority = self.get_event_and_condition_from_string(event)\n        priority += additional_priority\n\n        key = uuid.uuid4()", "KEY-7", also=[("mpf/core/events.py", "        return EventHandlerKey(key, event)", "        return EventHandlerKey(key, raw_event)")]),
         M("returned handler key is a fresh uuid", "mpf/core/events.py", "        return EventHandlerKey(key, event)", "        return EventHandlerKey(uuid.uuid4(), event)", "KEY-7"),
+        M("delayed control event armed on the machine-wide delay manager", MD, "        self.delay.add(ms=ms_delay, callback=callback, mode=self)", "        self.machine.delay.add(ms=ms_delay, callback=callback, mode=self)", "SCOPE-7"),
+        M("relay player clears every context's handlers", "mpf/config_players/queue_relay_player.py", "        for queue, handler in self._get_instance_dict(context).items():\n            self.machine.events.remove_handler_by_key(handler)\n            queue.clear()", "        self.machine.events.remove_handler(self._callback)\n        for queue in self._get_instance_dict(context):\n            queue.clear()", "SCOPE-7"),
     ]
 
 
